@@ -163,9 +163,16 @@ func faultClaim(prog []ioOp, f refamf.Fault, dlSent int) (inClaim bool, why stri
 	return false, "no-fault", -1, -1
 }
 
-func genC19Scenario(level string) func(t *rapid.T) *peCase {
+func genC19Scenario(level string) func(t *rapid.T) *peCase { return genC19ScenarioN(level, 3) }
+
+// genC19ScenarioN: up to maxR UEs. Long conversations (a dozen UEs, hundreds of internal steps) put fault points far
+// from the start of the run.
+func genC19ScenarioN(level string, maxR int) func(t *rapid.T) *peCase {
 	return func(t *rapid.T) *peCase {
-		r := rapid.IntRange(1, 3).Draw(t, "R")
+		r := rapid.IntRange(1, maxR).Draw(t, "R")
+		if maxR > 3 {
+			r = rapid.IntRange(maxR-2, maxR).Draw(t, "R_long")
+		}
 		cfg := genConfig(t, cfgOpts{maxUEs: r + 1, smallPSI: true, preferMNC2: true})
 		cfg.Reg = int64(r)
 		cfg.Pdu = int64(rapid.IntRange(0, r).Draw(t, "E"))
@@ -178,6 +185,11 @@ func genC19Scenario(level string) func(t *rapid.T) *peCase {
 		cfg.Dereg = int64(rapid.IntRange(0, r).Draw(t, "D"))
 		if rapid.IntRange(0, 2).Draw(t, "D_full") != 0 {
 			cfg.Dereg = int64(r)
+		}
+		if maxR > 3 {
+			// keep the sleeping procedures short in long conversations
+			cfg.Service, cfg.Release = int64(rapid.IntRange(0, 1).Draw(t, "S_long")), 0
+			cfg.Dereg = int64(rapid.IntRange(0, 2).Draw(t, "D_long")) * int64(r) / 2
 		}
 		c := &peCase{Level: level, Cfg: cfg}
 		c.Sc = genScenario(t, cfg, r, refamf.Policy{})
@@ -285,7 +297,7 @@ func evalC19(test string) func(c *peCase) evalResult {
 	}
 }
 
-var garbageFamilies = []string{"prefix", "choice3", "length", "oversize2048", "oversize4096"}
+var garbageFamilies = []string{"prefix", "choice3", "length", "oversize2048", "oversize4096", "otherproc", "otherproc"}
 
 // enumerateFaults runs the scenario fault-free and returns one case per (index, kind).
 func enumerateFaults(t *testing.T, r *ev.Rec, test string, base *peCase, seed int) []*peCase {
@@ -323,6 +335,11 @@ func enumerateFaults(t *testing.T, r *ev.Rec, test string, base *peCase, seed in
 		for j, n := range dlLens {
 			fam := garbageFamilies[rapid.IntRange(0, len(garbageFamilies)-1).Draw(rt, fmt.Sprintf("family%d", j))]
 			f := refamf.Fault{Kind: "garbage", Index: j, Garbage: fam}
+			if fam == "otherproc" {
+				// the first octets of an initiating message of ANOTHER procedure (any of the 52 procedure codes),
+				// followed by a length that claims more than the datagram holds
+				f.PrefixLen = rapid.IntRange(0, 51).Draw(rt, fmt.Sprintf("otherproc%d", j))
+			}
 			if fam == "prefix" {
 				switch rapid.IntRange(0, 3).Draw(rt, fmt.Sprintf("plen_kind%d", j)) {
 				case 0:
@@ -367,9 +384,14 @@ func runC19(t *testing.T, test, level string, nScenarios int) {
 		}
 		results := make([][]*peCase, nScenarios)
 		done := make(chan out, nScenarios)
+		genLong := rapid.Custom(genC19ScenarioN(level, 13))
 		for i := 0; i < nScenarios; i++ {
 			go func(i int) {
 				base := gen.Example(int(ev.Seed()) + i*15485863)
+				if level == "proc" && i == nScenarios-1 {
+					// one long conversation per run (a dozen UEs): fault points hundreds of steps into the run
+					base = genLong.Example(int(ev.Seed()) + i*15485863 + 5)
+				}
 				done <- out{i, enumerateFaults(t, r, test, base, int(ev.Seed())+i*32452843+17)}
 			}(i)
 		}
